@@ -9,7 +9,7 @@ from . import c02
 ID = "C10"
 LEVEL = "exploration"
 RULE = ("file names of 1..L symbols over {a, space, tab, LF, CR, ', \", \\, #, z-with-dot, U+2003, 0xFF} (L=3 quick, 4 "
-        "thorough) in first/last position of a group; long paths: each symbol repeated (pure and alternating with 'a') in components of <= 255 bytes up to a total of 255 / 1020 / 2040 / 4092 bytes; group shapes 1x1,1x2,2x2,3x1,0x0 x lengths {0,1,2^40} x hash "
+        "thorough) in first/last position of a group; long paths: each symbol repeated (pure and alternating with 'a') in components of <= 255 bytes up to a total of 255 / 1020 / 2040 / 4092 bytes; reports listing files in sibling directories whose names differ only in invalid UTF-8 bytes / U+FFFD; group shapes 1x1,1x2,2x2,3x1,0x0 x lengths {0,1,2^40} x hash "
         "sizes 16/32/64; base dirs over the same alphabet (<=2 symbols); 6 timestamps x small/large statistics; "
         "command vectors of <=2 arguments over the C17 alphabet; text and JSON; written by ReportWriter, read by "
         "open_report; plus every byte truncation point of six fixed reports (1-3 groups, LF/CRLF, text/JSON); binary cross-check: 30 "
